@@ -160,6 +160,7 @@ class AddrMap:
                 if len(gep["vars"]) == 1 and last.off is not None:
                     v = gep["vars"][0][0]
                     extra = 0
+                    factor = 1
                     while v[0] == "i":
                         vi = self.f.insts[v[1]]
                         if vi["op"] in ("zext", "sext"):
@@ -167,14 +168,20 @@ class AddrMap:
                         elif vi["op"] == "add" and vi["ops"][1][0] == "c":
                             k = int(vi["ops"][1][1])
                             bits = vi.get("bits", 32)
-                            extra += k - (1 << bits) if k >= 1 << (bits - 1) else k
+                            extra += factor * (k - (1 << bits) if k >= 1 << (bits - 1) else k)
+                            v = vi["ops"][0]
+                        elif vi["op"] == "mul" and vi["ops"][1][0] == "c":
+                            factor *= int(vi["ops"][1][1])
+                            v = vi["ops"][0]
+                        elif vi["op"] == "shl" and vi["ops"][1][0] == "c":
+                            factor *= 1 << int(vi["ops"][1][1])
                             v = vi["ops"][0]
                         else:
                             break
                     if v[0] == "a":
-                        # base + scale*(parameter + extra) + constant: remember the constant part
+                        # base + scale*(factor*parameter + extra) + constant: remember the constant part
                         sc = gep["vars"][0][1]
-                        elinfo = ("argoff", v[1], sc, last.off + gep["coff"] + extra * sc)
+                        elinfo = ("argoff", v[1], sc * factor, last.off + gep["coff"] + extra * sc)
             return Addr(base.root, base.segs[:-1] + (Seg(ty, None, rng, elinfo),))
         if last.off is None:
             # constant steps after a variable index move inside the element
